@@ -34,6 +34,7 @@ func VerifRanges() map[string][2]uint32 {
 		"NumType":           {uint32(minNumType), uint32(maxNumType)},
 		"Op":                {uint32(minOp), uint32(maxOp)},
 		"Open":              {uint32(minOpen), uint32(maxOpen)},
+		"XOp":               {uint32(minXOp), uint32(maxXOp)},
 	}
 }
 
